@@ -6,6 +6,7 @@ out `Arc<Stream>`s that outlive their table entries; the two tables map stream i
 -/
 import AnyTLS.Model.Reader
 import AnyTLS.Model.Padding
+import AnyTLS.Model.Md5
 
 namespace AnyTLS
 open Gen
@@ -66,6 +67,8 @@ structure Sess where
   rng : UInt64 := 0
   /-- a HeartResponse was seen (count) -/
   heartResponses : Nat := 0
+  /-- schemes this session stored into the process-wide default (`update_default`), oldest first -/
+  pushed : List Scheme := []
   deriving Repr, Inhabited
 
 def splitmix (s : UInt64) : UInt64 × UInt64 :=
@@ -275,8 +278,13 @@ def Sess.handleFrame (s : Sess) (f : Frame) : Sess × Outcome :=
       | none => (s, .continue)
     else (s, .continue)
   | .updatePaddingScheme =>
-    -- modelled in `Sess.handleUpdate` (needs the process-wide default; see C19)
-    (s, .continue)
+    if s.isClient && !f.data.isEmpty then
+      match Scheme.parse f.data with
+      | some sch =>
+        -- `update_default` then `*padding = default()`: the session adopts the pushed scheme
+        ({ s with scheme := sch, schemeMd5 := Md5.hex f.data, pushed := s.pushed ++ [sch] }, .continue)
+      | none => (s, .continue)      -- unparsable: ignored, the session carries on
+    else (s, .continue)
   | .alert => s.handleAlert f.data
   | .heartRequest =>
     match s.writeFrame { cmd := .heartResponse, sid := f.sid, data := [] } with
